@@ -19,6 +19,18 @@ CHECKS["C17"]=dict(level="model_checking", ref="§C17",
    technique="exhaustive enumeration of event histories up to a depth (history replay on a fresh real Emulator), lock-step reference matrix, failing histories delta-debugged to minimal ones",
    text="Every event history up to depth 2 over the full alphabet (40 keys, 7 compound keys, 10 Sinclair controls, 8 Kempston bits, 4 mouse buttons, wheel, motion) and up to depth 4 (quick) / 5 (thorough) over each collision cluster (controls that share matrix positions across sources) is replayed on a fresh real Emulator and read back through IN instructions executed by the emulated CPU; all 8 half-rows, all 256 selector bytes, the Kempston port and the mouse ports are compared with a reference matrix. No state merging on the implementation side.",
    note="Keyboard/joystick and mouse are read on two machine configurations (which device wins a shared port is C07). Known finding: Sinclair joystick 2 down.")
+CHECKS["C01"]=dict(level="model_checking", ref="§C01",
+   technique="finite product enumeration per opcode encoding over the discovered read set plus exhaustive pair/triple sequences, lock step with an independent silicon-validated reference interpreter",
+   text="For every one of the 1786 distinct encodings the atoms of machine state the instruction depends on are discovered on the reference model and the full product of their domains (all 256 values each when at most three byte atoms are involved in thorough; boundary alphabets within a tuple budget otherwise) is executed on the real Z80::emulate and on RefZ80, with two contrasting backgrounds for everything else; all ordered pairs of encodings (thorough: all triples ending in SCF/CCF/BIT observers) carry hidden state across instructions. Every register, both IFFs, IM, HALT, MEMPTR, Q (observable bits) and the ordered data-carrying bus accesses are compared.",
+   note="RefZ80 (harness/refz80) written independently of rustzx and validated against zexall, z80test 1.2 full/memptr/ccf and z80bltst before every use (stamp keyed by its source hash). Q after a repeating block iteration is not judged (no ground truth, unobservable).")
+CHECKS["C18"]=dict(level="model_checking", ref="§C18",
+   technique="finite product enumeration on the chip core (tick level, via hook) plus explicit enumeration of write/generate histories and of all select/data port values",
+   text="All 4096 tone periods x 3 channels, all noise periods, all 16 envelope shapes x 7 periods, all 256 mixer values, all volume codes, all 7 stereo modes on the tick-exact core; 12 sample rates x 4 programmes on the public sample path (finite, bounded, tone frequency); all histories of <=3 ops over a 99-op alphabet and <=4/5 over a reduced one against the final register file; all 256 select values x data alphabet through the real Spectrum ports on 48K+AY and 128K.",
+   note="Hook H4 (verif_tick, verif_levels). Not judged: EP=0, NP=0, TP=1 on the analog path (sits on the interpolator's Nyquist zero).")
+CHECKS["C20"]=dict(level="model_checking", ref="§C20",
+   technique="exhaustive enumeration of all partitions of the output into play() buffer lengths, recording backend plus bit-exact differential on the real chip, writer-based decode check",
+   text="For frames 0..3, samples-per-frame {1,2,3,5}, mono and stereo, every composition of the output into play() buffer lengths (incl. length 1, odd stereo lengths, past-the-end calls) is executed against a recording AY backend (frame k written exactly at sample k*spf, R13=FF skipped, totals) and 2^11 cut subsets on the real AymPrecise bit-exactly; Vtx::load is checked on files produced by an independent writer (literal-only LH5 validated through delharc) and on the four shipped files.",
+   note="Not judged: player frequency 0, sample rate below player frequency. Largest stereo configuration uses capacity compositions x odd/even patterns (noted in evidence).")
 NOT_YET = {
 }
 def main():
@@ -43,7 +55,7 @@ def main():
     hooks=subprocess.run("git -C /repo log --format=%H --grep='^verif hooks'",shell=True,capture_output=True,text=True).stdout.split()
     m={
       "version":1,
-      "setup_cmd":"cd /verif/harness && CARGO_NET_OFFLINE=true cargo build --release --offline -p vcheck",
+      "setup_cmd":"cd /verif/harness && CARGO_NET_OFFLINE=true cargo build --release --offline -p vcheck -p refz80",
       "hooks":{"guard":"--cfg rustzx_verif","enable":"RUSTFLAGS via /verif/harness/.cargo/config.toml: --cfg rustzx_verif (harness path-depends on /repo crates, so every check rebuilds them from the working tree with hooks on)",
                "baseline_off_cmd":"cd /repo && cargo test --workspace --no-fail-fast --offline","source_commits":hooks,"add_only":True},
       "engines":[{"name":"vcheck","path":"/verif/harness/vcheck","serves_properties":sorted(CHECKS),"kind_free_text":"bounded exhaustive exploration on the real code: finite product enumeration, explicit-state BFS (clone or history replay), deviation-bounded environment exploration; lock-step reference models"}],
